@@ -28,3 +28,31 @@ Section Wf.
     is_some (root_type sch (op_kind o)) && forallb sel_okb (op_sel o) && forallb (fun v => ty_okb (vd_type v)) (op_vars o).
 
 End Wf.
+
+(* ---- the stronger form used by the full no-panic theorem: in addition, every field has a
+   non-empty alias (GraphQL: the alias defaults to the name), and every selection set has at most
+   one synthesised `__typename` (preprocessing adds at most one) and at least one node that is
+   not synthesised (the grammar has no empty selection set) ---- *)
+Definition flat_synth (s : sel) : bool :=
+  match s with SField _ n _ _ _ _ l => str_eqb n typename_name && N.eqb l 0 | _ => false end.
+
+Definition set_shape_okb (sels : list sel) : bool :=
+  Nat.leb (List.length (filter flat_synth sels)) 1
+  && match sels with [] => true | _ => existsb (fun s => negb (flat_synth s)) sels end.
+
+Section Wf2.
+  Variable sch : schema.
+  Variable frags : list fragment.
+
+  Fixpoint sel_okb2 (s : sel) : bool :=
+    match s with
+    | SField a _ fty _ _ sub _ => nonempty a && ty_okb sch fty && set_shape_okb sub && forallb sel_okb2 sub
+    | SInline c _ sub _ => (match c with [] => true | _ => is_some (find_type sch c) end) && set_shape_okb sub && forallb sel_okb2 sub
+    | SSpread n _ _ => is_some (find_fragment frags n)
+    end.
+  Definition sels_okb2 (sels : list sel) : bool := set_shape_okb sels && forallb sel_okb2 sels.
+  Definition frag_okb2 (fr : fragment) : bool := is_some (find_type sch (fr_on fr)) && sels_okb2 (fr_sel fr).
+  Definition frags_okb2 : bool := forallb frag_okb2 frags.
+  Definition op_okb2 (o : operation) : bool :=
+    is_some (root_type sch (op_kind o)) && sels_okb2 (op_sel o) && forallb (fun v => ty_okb sch (vd_type v)) (op_vars o).
+End Wf2.
